@@ -238,6 +238,7 @@ func propC02(j *Job) {
 	cases = append(cases, famZS([]int{1000, 4300})...)
 	cases = append(cases, famZ4([]uint32{256 << 10}, []int{2300})...)
 	cases = append(cases, famWrapPause()...)
+	cases = append(cases, famZR(modes, []int{2, 3, 4})...)
 	runCases(j, cases, func(spec *xferSpec) func(m *Sim, x *Exec, r *xferResult) { return deliveryFinal(spec, true, monOpts{}) })
 	// reliable streams next to a partially reliable one whose message is lost and abandoned:
 	// whatever else is lost (the FORWARD-TSN, its acknowledgement), the reliable data still gets
